@@ -69,7 +69,7 @@ func signedReq(secret, route string, ts int64, nonce string, body []byte) *http.
 
 // c09L1: ingress.HMACAuth under a virtual clock.
 func c09L1(c *vlib.Ctx) {
-	n := c.N(800, 40000)
+	n := c.N(800, 20000)
 	for i := 0; i < n; i++ {
 		r := vlib.Derive(c.Seed, "C09L1", i)
 		tol := vlib.Pick(r, []time.Duration{time.Second, 30 * time.Second, 5 * time.Minute})
@@ -137,7 +137,7 @@ func c09L1(c *vlib.Ctx) {
 
 // c09Concurrent: identical signed requests from 16 goroutines at one instant.
 func c09Concurrent(c *vlib.Ctx) {
-	n := c.N(150, 4000)
+	n := c.N(150, 1600)
 	for i := 0; i < n; i++ {
 		clock := vlib.NewVClock(c08T0)
 		auth := ingress.NewHMACAuth([][]byte{[]byte("k1")})
